@@ -8,6 +8,6 @@ cd $VERIF
 for pid in "$@"; do
   out=$(./check $pid --tier quick 2>&1); rc=$?
   out=$(echo "$out" | grep -v NOT-CHECKED)
-  echo "[$name] $pid exit=$rc :: $(echo "$out" | grep -E 'VIOLATION|KNOWN' | head -3 | tr '\n' ' ') :: $(echo "$out" | tail -1)"
+  echo "[$name] $pid exit=$rc :: $(echo "$out" | grep -E 'VIOLATION' | head -2 | tr '\n' ' ') :: $(echo "$out" | tail -1)"
 done
 git -C $REPO checkout -- . 
